@@ -222,6 +222,7 @@ class Spec:
     def __init__(self, f):
         # ccAdd name hb f4 f6 sel
         self.name = f[1]
+        self.raw = f[2:]
         self.hb = int(f[2])
         self.v4 = self.fld(f[3])
         self.v6 = self.fld(f[4])
@@ -356,6 +357,9 @@ def judge_history(h, want):
         # ---------------- environment events: envelope bookkeeping
         if kind == "ccAdd" and f[1] not in before["api_ccs"] and f[1] in api_ccs:
             sp = Spec(f)
+            if f[1] in specs and " ".join(specs[f[1]].raw) != " ".join(f[2:]) and any(e.get("name") == f[1] for e in snap_b):
+                # the name is created again with another spec while pools of its previous life are still mapped (P15)
+                clauses.add("P15-deleted-before-finalizer")
             specs[f[1]] = sp
             del_processed.pop(f[1], None)
             fin_removed.discard(f[1])
@@ -586,8 +590,8 @@ def check_patches(i, op, f, ob, before, specs, svcs, boot_mapped, holders_shown,
             if okk and sp.eligible(labels)[0]:
                 cands.append(e["name"])
         if not cands:
-            bad("C02", i, f"assignment {toks} to node {node} (labels {labels}) is not one block per family of any eligible mapped ClusterCIDR", ("P14-sentinel",))
-            bad("C12", i, f"assignment {toks} to node {node} is not a proper block of a usable ClusterCIDR", ("P14-sentinel",))
+            bad("C02", i, f"assignment {toks} to node {node} (labels {labels}) is not one block per family of any eligible mapped ClusterCIDR", ("P14-sentinel", "P15-deleted-before-finalizer"))
+            bad("C12", i, f"assignment {toks} to node {node} is not a proper block of a usable ClusterCIDR", ("P14-sentinel", "P15-deleted-before-finalizer"))
         # C06(b,c): nothing allocated from a ClusterCIDR whose deletion has been processed
         gained = [e["name"] for e in ob["snap"] if node in e.get("assoc", []) and not any(b.get("name") == e["name"] and node in b.get("assoc", []) for b in before["snap"])]
         for g in gained:
